@@ -1175,6 +1175,8 @@ class Engine:
                 if params.kwarg is None:
                     raise EngineError("unexpected kw argument %s for %s" % (k, fr.key))
         frame = Frame(fr, env, fr.module, self.contract if top else None)
+        if top:
+            self.top_env = env  # locals of the function under contract (still readable after it has exited)
         self.frames.append(frame)
         if len(self.frames) > 40:
             raise EngineError("call depth")
